@@ -35,3 +35,11 @@ struct { unsigned calls; qstr enc; KeyList senders; } G_mp;       /* makePostpon
 #else
 #define MP_CLOSURE_CARRIES(senders) 1
 #endif
+/* a round of authenticate: G_auth holds the key set K the round was started for.  The continuations of the round must make
+   the postponed decisions of exactly K's key ids as sender keys; a closure member named keyIds, where a closure has one, is K */
+#define AUTH_ROUND(e_) (G_auth.enc == (e_) && KS_WF(G_auth.keys) && G_auth.keys.nonempty)
+#ifdef HAS_Atm_authenticate_k0_0_0_keyIds
+#define AUTH_K000_CARRIES_K (KS_EQ(R_Atm_authenticate_k0_0_0.keyIds, G_auth.keys) && KS_WF(R_Atm_authenticate_k0_0_0.keyIds))
+#else
+#define AUTH_K000_CARRIES_K 1
+#endif
